@@ -100,10 +100,28 @@ def check_result_tier(s, result, exp_entry_alts, exp_lo, exp_hi, scale, ulps=4):
     return None
 
 
+_made = [0]
+_user_classes = {}
+
+
+def user_tier_class(kind):
+    """a user's own subclass of the library's tier class (no behaviour added): whatever holds for a tier holds for it"""
+    if kind not in _user_classes:
+        from praatio.data_classes.interval_tier import IntervalTier
+        from praatio.data_classes.point_tier import PointTier
+
+        base = IntervalTier if kind == "I" else PointTier
+        _user_classes[kind] = type("User" + base.__name__, (base,), {"__doc__": "a subclass defined by the library's user"})
+    return _user_classes[kind]
+
+
 def make_tier(kind, name, ents, lo, hi):
     from praatio.data_classes.interval_tier import IntervalTier
     from praatio.data_classes.point_tier import PointTier
 
+    _made[0] += 1
+    if _made[0] % 17 == 0:
+        return user_tier_class(kind)(name, ents, lo, hi)  # every 17th tier is an instance of a user-defined subclass
     return (IntervalTier if kind == "I" else PointTier)(name, ents, lo, hi)
 
 
